@@ -18,3 +18,37 @@ func VH_C07_NewSolar() {
 	vAssert("ymd-accepts-iff-valid", p2 == !specValidYmd(y, m, d))
 	vReach("C07a")
 }
+
+// C07-H2: NewLunar (and NewTao / NewFoto) accept exactly the (month, day) pairs of year Y's own table.
+func VH_C07_NewLunar() {
+	Y := vParam("Y")
+	mo, dy := vInt("mo", -14, 14), vInt("dy", -2, 33)
+	h, mi, s := vInt("h", -1, 24), vInt("mi", -1, 60), vInt("s", -1, 60)
+	// spec from the table
+	valid := false
+	cnt := 0
+	for i := NewLunarYear(Y).months.Front(); i != nil; i = i.Next() {
+		mm := i.Value.(*LunarMonth)
+		if mm.year == Y && mm.month == mo && cnt == 0 {
+			cnt = mm.dayCount
+		}
+	}
+	if cnt > 0 && dy >= 1 && dy <= cnt && specValidHms(h, mi, s) {
+		valid = true
+	}
+	var l *Lunar
+	p := vPanics(func() { l = NewLunar(Y, mo, dy, h, mi, s) })
+	vAssert("newlunar-accepts-iff-exists", p == !valid)
+	pt := vPanics(func() { NewTao(Y+2697, mo, dy, h, mi, s) })
+	vAssert("newtao-accepts-iff-exists", pt == !valid)
+	pf := vPanics(func() { NewFoto(Y+544, mo, dy, h, mi, s) })
+	vAssert("newfoto-accepts-iff-exists", pf == !valid)
+	if !p {
+		vAssert("fields", l.year == Y && l.month == mo && l.day == dy && l.hour == h && l.minute == mi && l.second == s)
+		sol := l.GetSolar()
+		vAssert("solar-valid", specValidYmd(sol.year, sol.month, sol.day) && sol.hour == h && sol.minute == mi && sol.second == s)
+		back := sol.GetLunar()
+		vAssert("image-of-a-civil-day", back.year == Y && back.month == mo && back.day == dy)
+	}
+	vReach("C07b")
+}
